@@ -77,6 +77,13 @@ macro_rules! scalar_type {
                     ensure!(k == (a == b), "const_eq!({a:?},{b:?}) [{tn}] = {k}");
                     let k = const_cmp!(a, b);
                     ensure!(k == a.cmp(&b), "const_cmp!({a:?},{b:?}) [{tn}] = {k:?}");
+                    // each argument expression is evaluated exactly once, left before right
+                    let n = std::cell::Cell::new(0u32);
+                    let k = const_eq!({ n.set(n.get() * 10 + 1); a }, { n.set(n.get() * 10 + 2); b });
+                    ensure!(k == (a == b) && n.get() == 12, "const_eq!({a:?},{b:?}) [{tn}] with counting arguments: result {k}, evaluation trace {} (expected 12)", n.get());
+                    n.set(0);
+                    let k = const_cmp!({ n.set(n.get() * 10 + 1); a }, { n.set(n.get() * 10 + 2); b });
+                    ensure!(k == a.cmp(&b) && n.get() == 12, "const_cmp!({a:?},{b:?}) [{tn}] with counting arguments: result {k:?}, evaluation trace {} (expected 12)", n.get());
                     // the method form behind the macros, and try_equal! (early return unless Equal)
                     let k = konst::coerce_to_cmp!(a).const_eq(&b);
                     ensure!(k == (a == b), "coerce_to_cmp!({a:?}).const_eq(&{b:?}) [{tn}] = {k}");
